@@ -1,8 +1,8 @@
 #!/usr/bin/env python3
 # regenerates DESIGN.md §8 from /verif/seeded/*/meta.json
 import json,glob,os
-rows={k:[] for k in range(1,8)}
-stats={k:[0,0,0] for k in range(1,8)}
+rows={k:[] for k in range(1,9)}
+stats={k:[0,0,0] for k in range(1,9)}
 for d in sorted(glob.glob('/verif/seeded/*/meta.json')):
     m=json.load(open(d)); name=os.path.basename(os.path.dirname(d)); rnd=m.get('round',1)
     f0=m['first_run']
@@ -14,9 +14,9 @@ for d in sorted(glob.glob('/verif/seeded/*/meta.json')):
     rows[rnd].append(f"| {name} | {summ} | {first} | {now} | {m.get('strengthening','')} |")
 hdr="| seed | change | first run | now | what was strengthened |\n|---|---|---|---|---|\n"
 md = "\n## 8. Seeded changes (independent sub-agents, one scratch worktree each, given only the property text)\n\n" \
- "Seven rounds of forty changes (two per property and round) that compile, keep the 320 tests green and break the property. Each\n" \
+ "Eight rounds of forty changes (two per property and round) that compile, keep the 320 tests green and break the property. Each\n" \
  "was confirmed in a scratch worktree (demo passes on the original; suite passes and demo fails with the change) and then checked\n" \
- "with `VERIF_REPO=<worktree> ./check <id> quick`. `/verif/seeded/<id>-<X>/` (round 1) and `/verif/seeded/<id>-R<n><X>/` (rounds 2-7)\n" \
+ "with `VERIF_REPO=<worktree> ./check <id> quick`. `/verif/seeded/<id>-<X>/` (round 1) and `/verif/seeded/<id>-R<n><X>/` (rounds 2-8)\n" \
  "hold `patch.diff`, the demonstration (`demo_test.go.txt`) and `meta.json`. *First run* = the checks as they stood when the\n" \
  "change arrived. The misses were used to strengthen harnesses and engine (last column); round 2 was produced after the round-1\n" \
  "strengthening and again found gaps, mostly *state carried between scans* and *failure paths*, which led to the prior-scan /\n" \
@@ -28,8 +28,9 @@ md = "\n## 8. Seeded changes (independent sub-agents, one scratch worktree each,
  f"Round 4 (sub-agents were asked to prefer easily overlooked mechanisms: cached state, fleet mode, dry mode, several groups, auto-discovery, partial failures): {stats[4][1]} of {stats[4][0]} caught on first run, {stats[4][2]} after strengthening.  \n" \
  f"Round 5 (asked to prefer the last sentence / subordinate clauses of a statement, helper code and wiring, effects of the second or third scan, legal extremes): {stats[5][1]} of {stats[5][0]} caught on first run, {stats[5][2]} after strengthening.  \n" \
  f"Round 6 (sub-agents were told that a bounded checker with up to 3 nodes, 2 pods, 2 groups, 2 scans, single generic API failures and small option values guards the project, and asked to stay outside it: more objects or scans, specific error kinds, specific strings, large quantities, slowly accumulating state): {stats[6][1]} of {stats[6][0]} caught on first run, {stats[6][2]} after strengthening (C16-R6B is in the decoding path).  \n" \
- f"Round 7 (the prompt listed everything the checks explored by then and asked for something else: order of API answers, string-typed options, long time spans, three features at once, the two cloud code paths): {stats[7][1]} of {stats[7][0]} caught on first run, {stats[7][2]} after strengthening (two of them by another property's check); left: time-zone formatting (C08-R7A, unsupported by the time model and reported as such), a guard on the scan's wall-clock duration (C12-R7A).\n\n" \
- "### Round 1\n\n"+hdr+"\n".join(rows[1])+"\n\n### Round 2\n\n"+hdr+"\n".join(rows[2])+"\n\n### Round 3\n\n"+hdr+"\n".join(rows[3])+"\n\n### Round 4\n\n"+hdr+"\n".join(rows[4])+"\n\n### Round 5\n\n"+hdr+"\n".join(rows[5])+"\n\n### Round 6\n\n"+hdr+"\n".join(rows[6])+"\n\n### Round 7\n\n"+hdr+"\n".join(rows[7])+"\n"
+ f"Round 7 (the prompt listed everything the checks explored by then and asked for something else: order of API answers, string-typed options, long time spans, three features at once, the two cloud code paths): {stats[7][1]} of {stats[7][0]} caught on first run, {stats[7][2]} after strengthening (two of them by another property's check); left: time-zone formatting (C08-R7A, unsupported by the time model and reported as such), a guard on the scan's wall-clock duration (C12-R7A).  \n" \
+ f"Round 8 (asked for clauses nobody tests, interactions with seemingly unrelated features, rare configuration values, off-by-ones at 20/21/1000): {stats[8][1]} of {stats[8][0]} caught on first run, {stats[8][2]} after strengthening; see the table for what is left.\n\n" \
+ "### Round 1\n\n"+hdr+"\n".join(rows[1])+"\n\n### Round 2\n\n"+hdr+"\n".join(rows[2])+"\n\n### Round 3\n\n"+hdr+"\n".join(rows[3])+"\n\n### Round 4\n\n"+hdr+"\n".join(rows[4])+"\n\n### Round 5\n\n"+hdr+"\n".join(rows[5])+"\n\n### Round 6\n\n"+hdr+"\n".join(rows[6])+"\n\n### Round 7\n\n"+hdr+"\n".join(rows[7])+"\n\n### Round 8\n\n"+hdr+"\n".join(rows[8])+"\n"
 s=open('/verif/DESIGN.md').read()
 i=s.find('\n## 8. Seeded changes')
 if i>=0: s=s[:i]
